@@ -1,2 +1,15 @@
 """Predicates for known findings: each takes (case, reason) and decides from the case's own data
 whether it is the recorded defect. Never an instance id."""
+
+
+def c01_signed_division_negative(case, reason):
+    """F1: the statement contains a // or % that the DSL types as signed and one of whose exact operand
+    values is negative (flag computed by spec/Dsl.tla SignedDivNeg from the case's own inputs); the
+    generator emits the unsigned DIV / MOD instruction for it"""
+    return case.get("verdict") == "wrong" and case.get("signed_div_neg") is True
+
+
+def c01_sw_negative_in_64bit(case, reason):
+    """F21: an operand is the signed 32-bit register view `sw` holding a negative value (spec flag
+    SwNegative) and the destination is 8 bytes wide: the register is used without sign extension"""
+    return case.get("verdict") == "wrong" and case.get("sw_negative") is True and case.get("dst_size") == 8
